@@ -144,7 +144,10 @@ def build():
                                     'input paths and the source tree the run itself has just created (ASSUMPTION: those contain no symlinked components)')
     def _realpath(ex, st, node, args, kwargs):
         a = S.sval(args[0].t)
-        if ex.c.qualname in REALPATH_IS_ABSPATH_IN:
+        src_txt = ast.unparse(node) if node is not None else ''
+        # the two calls that decide which directories the walk skips are about the WORKSPACE and the walked entries, which may well lie behind symlinks: uninterpreted there
+        pruning_side = 'self.options.workspace' in src_txt or 'os.path.join(root, d)' in src_txt
+        if ex.c.qualname in REALPATH_IS_ABSPATH_IN and not pruning_side:
             return V(S.mk_str(abspath(a)), Str)
         return V(S.mk_str(fn('os_path_realpath', SS, SS)(a)), Str)
 
@@ -247,7 +250,19 @@ def build():
         d = S.sval(c.p.dst_path)
         return z3.Or(under(d, wsrel(c)), under(d, wsabs(c)))
 
+    def hook_pruned(ex, st, node):
+        """after `dirs[:] = [...]`: no directory left for the walk resolves (symlinks included: realpath is uninterpreted here) to the workspace being filled"""
+        c = ex.ctx(st)
+        rp = fn('os_path_realpath', SS, SS)
+        D = c.cur.list(st.env['dirs'].t)
+        k_ = z3.Int('k')
+        root = S.sval(st.env['root'].t)
+        ws_ = S.sval(c.pre.attr(c.pre.attr(c.p.self, 'options'), 'workspace'))
+        ex.oblige(st, 'bounded-copy:the-walk-never-descends-into-a-directory-that-resolves-(through-symlinks-too)-to-the-workspace-being-filled',
+                  S.forall([k_], z3.Implies(z3.And(k_ >= 0, k_ < z3.Length(D)), rp(shared.sp_join(root, S.sval(S.at(D, k_)))) != rp(ws_)), patterns=[S.at(D, k_)]), kind='lemma')
+
     reg.add(Contract(PREP, 'WorkspaceBuilder.copytree_with_extension', dict(self=WB, src=Str, dst_path=Str), returns=NoneT, ghost_init=set_roots_from_options,
+                     ghost_hooks={'after_stmt:dirs[:] = ': hook_pruned},
                      requires=[ws_nonempty, ('destination-is-under-the-workspace', dst_ok)],
                      ensures=[('every-directory-created-and-every-file-copied-is-under-the-workspace', lambda c: z3.BoolVal(True)),
                               ('options-untouched', lambda c: z3.And(c.new.attr(c.p.self, 'options') == c.old.attr(c.p.self, 'options'),
